@@ -315,9 +315,9 @@ impl World {
         self.trace.lock().unwrap().push(v);
     }
 
-    async fn wait_call(&mut self, method: &str) -> Option<PendingCall> {
+    async fn wait_call(&mut self, method: &str, want: &Value) -> Option<PendingCall> {
         for _ in 0..600 {
-            if let Some(c) = self.node.take(method) {
+            if let Some(c) = self.node.take_where(method, want) {
                 return Some(c);
             }
             settle().await;
@@ -425,7 +425,7 @@ impl World {
             "rpc" => {
                 let method = op["method"].as_str().unwrap_or("").to_string();
                 let wire = if method == "get_info" { "getinfo".to_string() } else { method.clone() };
-                let call = self.wait_call(&wire).await;
+                let call = self.wait_call(&wire, &op["match"]).await;
                 let call = match call {
                     Some(c) => c,
                     None => {
